@@ -13,6 +13,7 @@ import HtaVerif.Model.C17
 import HtaVerif.Model.C18
 import HtaVerif.Model.C11
 import HtaVerif.Model.C03
+import HtaVerif.Model.C13
 /-!
 `htadrv` — line protocol driver. One JSON request per input line, one JSON answer per
 output line. Imports only `Model/*` and `Spec/*` (core Lean), never a proof file.
@@ -310,6 +311,12 @@ def handle (j : Json) : Except String Json := do
       let o := C03.cmpOld pof x y
       return Json.arr #[n, jInt (if o < 0 then -1 else if o > 0 then 1 else 0), Json.bool (decide (C03.tokLt pof x y))]
     return Json.mkObj [("results", Json.arr out.toArray)]
+  | "c13" =>
+    let rs ← rows (← field j "rows")
+    let out := (C13.run rs).map fun (i, a) =>
+      Json.arr #[jInt i, jInt a.parent, jInt a.depth, jInt a.height, jInt a.numKernels, jInt a.kernelDurSum,
+        jInt a.kernelSpan, jInt a.firstKernelStart, jInt a.lastKernelEnd]
+    return Json.mkObj [("attrs", Json.arr out.toArray)]
   | _ => throw s!"unknown op {op}"
 
 partial def loop (hin hout : IO.FS.Stream) : IO Unit := do
